@@ -87,12 +87,12 @@ def _shape(rng):
     return kind, n, sorted({(min(a, b), max(a, b)) for a, b in edges})
 
 
-def generate(run_seed, prop, tier="quick"):
-    rng = rng_for("layout-scenario", run_seed)
+def _source(rng):
     roll = rng.random()
     if roll < 0.55:
         kind, n, edges = _shape(rng)
         source = {"type": "shape", "kind": kind, "n": n, "edges": [list(e) for e in edges],
+                  "edge_weights": [rng.choice([0.5, 1.0, 2.0, 0.0, 7.5]) for _ in edges] if rng.random() < 0.2 else None,
                   "orders": [rng.choice([1, 1, 1, 2, 3, 1, 1, 0, 1.5]) for _ in edges]}
     elif roll < 0.62:
         # coarse graphs as the reader returns them, incl. zero-order ('.') edges
@@ -104,11 +104,20 @@ def generate(run_seed, prop, tier="quick"):
         source = {"type": "resolved", "kind": "ez", "string": rng.choice(EZ_STRINGS), "last_all_atom": True}
     else:
         source = {"type": "resolved", "kind": "curated", "string": rng.choice(MOL_STRINGS), "last_all_atom": True}
+    return source
+
+
+def generate(run_seed, prop, tier="quick"):
+    rng = rng_for("layout-scenario", run_seed)
+    sources = [_source(rng)]
+    while len(sources) < 3 and rng.random() < 0.35:
+        sources.append(_source(rng))        # several molecules drawn one after the other in one process
     ops = []
     for _ in range(rng.randint(1, 4)):
         roll = rng.random()
         if roll < 0.7 or not ops:
-            ops.append({"op": "layout", "bond": rng.choice([1, 1, 0.35, 2.5, 1.54, 10.0, 0.01, 1e-4, 750.0, 3, 1.5e-10, 1e-8, 1e6]),
+            ops.append({"op": "layout", "g": rng.randrange(len(sources)), "bond": rng.choice([1, 1, 0.35, 2.5, 1.54, 10.0, 0.01, 1e-4, 750.0, 3, 1.5e-10, 1e-8, 1e6,
+                                                           {"np": "float32", "v": 1.5}, {"np": "float16", "v": 0.35}, {"np": "float32", "v": 0.1}, {"np": "int64", "v": 2}]),
                         "np_seed": rng.randrange(2 ** 32) if rng.random() < 0.65 else None,
                         "relabel": rng.choice(["none", "none", "shuffle", "strings", "offset"]),
                         "relabel_seed": rng.randrange(2 ** 30),
@@ -117,11 +126,17 @@ def generate(run_seed, prop, tier="quick"):
             ops.append({"op": "foreign_rng", "seed": rng.randrange(2 ** 32), "draws": rng.randint(0, 7)})
         elif roll < 0.88:
             # the caller edits the same graph object in place between two layouts
-            ops.append({"op": "mutate_graph", "how": rng.choice(["rewire", "rewire", "relabel_inplace"]), "seed": rng.randrange(2 ** 30)})
+            ops.append({"op": "mutate_graph", "g": rng.randrange(len(sources)), "how": rng.choice(["rewire", "rewire", "relabel_inplace"]), "seed": rng.randrange(2 ** 30)})
         else:
-            ops.append({"op": "relabel_pair", "bond": rng.choice([1, 0.35, 2.5]), "np_seed": rng.randrange(2 ** 32),
+            ops.append({"op": "relabel_pair", "g": rng.randrange(len(sources)), "bond": rng.choice([1, 0.35, 2.5]), "np_seed": rng.randrange(2 ** 32),
                         "relabel": rng.choice(["shuffle", "strings", "offset"]), "relabel_seed": rng.randrange(2 ** 30)})
-    return {"family": "layout", "prop": prop, "run_seed": run_seed, "source": source, "ops": ops}
+    if len(sources) > 1:
+        # make sure every molecule is laid out at least once, the later ones after the earlier ones
+        for g in range(len(sources)):
+            if not any(o.get("g") == g and o["op"] == "layout" for o in ops):
+                ops.append({"op": "layout", "g": g, "bond": rng.choice([1, 1.5, 0.35]), "np_seed": rng.randrange(2 ** 32),
+                            "relabel": "none", "relabel_seed": 0, "align": None})
+    return {"family": "layout", "prop": prop, "run_seed": run_seed, "sources": sources, "ops": ops}
 
 
 def _relabel(graph, how, seed):
@@ -177,7 +192,7 @@ def _check(graph, pos, bond, seq, violations, label, edges=None):
                                "detail": "%s: bonded nodes %r and %r coincide (distance %.3g, bond length %g)" % (label, u, v, d, bond)})
             return None
     mean = sum(dists) / len(dists)
-    if abs(mean - bond) > 1e-7 * bond:
+    if abs(mean - bond) > 1e-9 * bond:
         violations.append({"oracle": "C19.scale", "event": seq,
                            "detail": "%s: mean bond length %.9g, requested %g" % (label, mean, bond)})
     return mean
@@ -194,31 +209,45 @@ def run_history(scenario):
     violations = []
     stats = {}
     events = []
-    src = sc["source"]
-    if src["type"] == "shape":
-        graph = nx.Graph()
-        graph.add_nodes_from(range(src["n"]))
-        for (u, v), order in zip(src["edges"], src["orders"]):
-            graph.add_edge(u, v, order=order)
-    elif src["type"] == "cg":
-        from cgsmiles.read_cgsmiles import read_cgsmiles
-        graph = read_cgsmiles(src["string"])
-    else:
+    def build(src):
+        if src["type"] == "shape":
+            g = nx.Graph()
+            g.add_nodes_from(range(src["n"]))
+            weights = src.get("edge_weights") or [None] * len(src["edges"])
+            for (u, v), order, weight in zip(src["edges"], src["orders"], weights):
+                g.add_edge(u, v, order=order)
+                if weight is not None:
+                    g.edges[u, v]["weight"] = weight
+            return g
+        if src["type"] == "cg":
+            from cgsmiles.read_cgsmiles import read_cgsmiles
+            return read_cgsmiles(src["string"])
         from cgsmiles.resolve import MoleculeResolver
+        return MoleculeResolver.from_string(src["string"], last_all_atom=src["last_all_atom"]).resolve_all()[1]
+
+    graphs = []
+    for src in sc["sources"]:
         try:
-            _, graph = MoleculeResolver.from_string(src["string"], last_all_atom=src["last_all_atom"]).resolve_all()
+            g = build(src)
         except Exception as exc:  # noqa
             return {"rejected": "resolve raised %s" % type(exc).__name__, "events": [], "violations": [], "stats": {}}
-    if not nx.is_connected(graph) or graph.number_of_edges() == 0:
-        return {"rejected": "graph not connected or without bond", "events": [], "violations": [], "stats": {}}
-    stats["nodes"] = len(graph)
-    stats["has_ez"] = int(any("ez_isomer" in graph.nodes[n] for n in graph.nodes))
+        if not nx.is_connected(g) or g.number_of_edges() == 0:
+            return {"rejected": "graph not connected or without bond", "events": [], "violations": [], "stats": {}}
+        graphs.append(g)
+        stats["nodes"] = stats.get("nodes", 0) + len(g)
+        stats["has_ez"] = stats.get("has_ez", 0) + int(any("ez_isomer" in g.nodes[n] for n in g.nodes))
+
+    def bond_value(value):
+        if isinstance(value, dict) and "np" in value:
+            return getattr(np, value["np"])(value["v"])
+        return value
 
     def state_digest():
         return sha(repr(np.random.get_state()[1][:8].tolist()) + str(np.random.get_state()[2]))
 
     for seq, op in enumerate(sc["ops"]):
         event = {"seq": seq, "op": op["op"]}
+        graph = graphs[op.get("g", 0) % len(graphs)]
         try:
             if op["op"] == "foreign_rng":
                 np.random.seed(op["seed"])
@@ -230,12 +259,13 @@ def run_history(scenario):
                 if op["np_seed"] is not None:
                     np.random.seed(op["np_seed"])
                 event["state"] = state_digest()
-                kwargs = {"default_bond": op["bond"]}
+                bond = bond_value(op["bond"])
+                kwargs = {"default_bond": bond}
                 if op.get("align"):
                     kwargs["align_with"] = np.array(op["align"])
                 edges_before = list(work.edges)
                 pos = vespr_layout(work, **kwargs)
-                _check(work, pos, float(op["bond"]), seq, violations, "layout(relabel=%s)" % op["relabel"], edges=edges_before)
+                _check(work, pos, float(bond), seq, violations, "layout(relabel=%s)" % op["relabel"], edges=edges_before)
                 event["out"] = "ok"
                 event["dig"] = sha(jdump(sorted([repr(k), [round(float(x), 6) for x in np.asarray(v, dtype=float)]] for k, v in pos.items())))
                 stats["layouts"] = stats.get("layouts", 0) + 1
@@ -302,13 +332,14 @@ def execute(scenario):
             stats["fault:foreign-rng:fired"] = stats.get("fault:foreign-rng:fired", 0) + 1
         if ev["op"] == "layout" and sc["ops"][ev["seq"]].get("np_seed") is None:
             stats["fault:inherited-rng-state:fired"] = stats.get("fault:inherited-rng-state:fired", 0) + 1
-    kind = sc["source"].get("kind")
-    stats["kind:" + str(kind)] = 1
+    for src in sc["sources"]:
+        stats["kind:" + str(src.get("kind"))] = stats.get("kind:" + str(src.get("kind")), 0) + 1
+    stats["graphs_in_history:%d" % len(sc["sources"])] = 1
     stats["states"] = sorted({ev["state"] for ev in sim["events"] if ev.get("state")})
-    stats["case"] = sha(jdump([sc["source"].get("string") or [sc["source"]["edges"], sc["source"]["orders"]]]))
+    stats["case"] = sha(jdump([src.get("string") or [src["edges"], src["orders"]] for src in sc["sources"]]))
     result["digest"] = sha(jdump([[e.get(k) for k in ("seq", "op", "out", "dig", "state")] for e in sim["events"]]))
     result["nontrivial"] = sim["stats"].get("nodes", 0) >= 3
-    result["sample"] = {"source": {k: v for k, v in sc["source"].items() if k != "orders"}, "ops": sc["ops"],
+    result["sample"] = {"sources": [{k: v for k, v in src.items() if k not in ("orders", "edge_weights")} for src in sc["sources"]], "ops": sc["ops"],
                         "outcomes": [e.get("out") for e in sim["events"]]}
     return result
 
@@ -329,19 +360,28 @@ def shrink_candidates(scenario):
             new = copy.deepcopy(sc)
             new["ops"][k]["align"] = None
             yield new
-    src = sc["source"]
-    if src["type"] == "shape" and len(src["edges"]) > 1:
-        # drop a leaf node
-        deg = {}
-        for u, v in src["edges"]:
-            deg[u] = deg.get(u, 0) + 1
-            deg[v] = deg.get(v, 0) + 1
-        for leaf in sorted(n for n, d in deg.items() if d == 1)[:6]:
-            keep = [(e, o) for e, o in zip(src["edges"], src["orders"]) if leaf not in e]
-            nodes = sorted({x for e, _ in keep for x in e})
-            remap = {n: k for k, n in enumerate(nodes)}
+    if len(sc["sources"]) > 1:
+        for keep in range(len(sc["sources"])):
             new = copy.deepcopy(sc)
-            new["source"]["n"] = len(nodes)
-            new["source"]["edges"] = [[remap[e[0]], remap[e[1]]] for e, _ in keep]
-            new["source"]["orders"] = [o for _, o in keep]
+            new["sources"] = [new["sources"][keep]]
+            for op in new["ops"]:
+                if "g" in op:
+                    op["g"] = 0
             yield new
+    for idx, src in enumerate(sc["sources"]):
+        if src["type"] == "shape" and len(src["edges"]) > 1:
+            deg = {}
+            for u, v in src["edges"]:
+                deg[u] = deg.get(u, 0) + 1
+                deg[v] = deg.get(v, 0) + 1
+            weights = src.get("edge_weights") or [None] * len(src["edges"])
+            for leaf in sorted(n for n, d in deg.items() if d == 1)[:6]:
+                keep = [(e, o, w) for e, o, w in zip(src["edges"], src["orders"], weights) if leaf not in e]
+                nodes = sorted({x for e, _, _ in keep for x in e})
+                remap = {n: k for k, n in enumerate(nodes)}
+                new = copy.deepcopy(sc)
+                new["sources"][idx]["n"] = len(nodes)
+                new["sources"][idx]["edges"] = [[remap[e[0]], remap[e[1]]] for e, _, _ in keep]
+                new["sources"][idx]["orders"] = [o for _, o, _ in keep]
+                new["sources"][idx]["edge_weights"] = [w for _, _, w in keep] if src.get("edge_weights") else None
+                yield new
